@@ -51,6 +51,9 @@ pub trait Prop {
     const BOTH_PROFILES: bool = false;
     /// seconds without a heartbeat before a worker counts as stalled
     const STALL_SECS: u64 = 30;
+    /// whether a worker that stops making progress is a violation of *this* property
+    /// (C06/C08 speak about panics and memory; a stall there is C07's to report)
+    const STALL_IS_VIOLATION: bool = true;
     /// upper bound on concurrently running workers (memory-heavy checks)
     const MAX_WORKERS: usize = 16;
     fn count(tier: Tier) -> u64;
@@ -67,6 +70,15 @@ pub trait Prop {
     /// extra exhaustive flag for evidence
     fn exhaustive() -> bool {
         false
+    }
+}
+
+/// Number of cases of a tier. `VERIF_CASES` overrides it (development aid; registered commands
+/// never set it, so the explored set stays a function of seed and tier).
+pub fn case_count<P: Prop>(tier: Tier) -> u64 {
+    match std::env::var("VERIF_CASES").ok().and_then(|v| v.parse::<u64>().ok()) {
+        Some(n) => n,
+        None => P::count(tier),
     }
 }
 
@@ -144,7 +156,7 @@ struct VLine {
 }
 
 pub fn worker_main<P: Prop>(tier: Tier, seed: u64, shard: u64, of: u64, from: u64) -> i32 {
-    let n = P::count(tier);
+    let n = case_count::<P>(tier);
     let mut st = Stats::default();
     let out = std::io::stdout();
     let mut run_digest: u64 = 0;
@@ -317,27 +329,51 @@ fn death_text(sig: i32) -> String {
 
 fn gdb_top_frame(pid: u32) -> String {
     let out = Command::new("timeout")
-        .args(["10", "gdb", "-batch", "-p", &pid.to_string(), "-ex", "bt 40"])
+        .args(["20", "gdb", "-batch", "-p", &pid.to_string(), "-ex", "bt 60"])
         .stdout(Stdio::piped())
         .stderr(Stdio::null())
         .output();
     if let Ok(o) = out {
         let s = String::from_utf8_lossy(&o.stdout);
-        for line in s.lines() {
-            // "#3  0x... in mp4::mp4box::trun::...::read_box (...) at src/..."
-            if let Some(p) = line.find(" mp4::").or_else(|| line.find(" <mp4::")) {
-                let rest = &line[p + 1..];
-                let end = rest.find(" (").unwrap_or(rest.len());
-                let mut name = rest[..end].to_string();
-                if let Some(h) = name.rfind("::h") {
-                    if name.len() - h == 19 {
-                        name.truncate(h);
-                    }
+        // frames look like "#3  0x... in mp4::track::Mp4Track::sample_offset (self=...) at src/track.rs:512"
+        // (the "at" part may be on a continuation line): take the innermost frame whose source
+        // file lies under /repo/src or src/ of the mp4 crate.
+        let text: String = s.replace("\n    ", " ");
+        for line in text.lines() {
+            if !line.starts_with('#') {
+                continue;
+            }
+            let Some(at) = line.rfind(" at ") else { continue };
+            let file = line[at + 4..].trim();
+            let file = file.split(':').next().unwrap_or(file);
+            let rel = if let Some(p) = file.find("/repo/src/") {
+                &file[p + "/repo/src/".len()..]
+            } else if let Some(r) = file.strip_prefix("src/") {
+                // relative path as recorded for the dependency; harness files are under ./src too,
+                // so require a name that only the mp4 crate has
+                if ["track.rs", "reader.rs", "writer.rs", "types.rs"].contains(&r) || r.starts_with("mp4box/") {
+                    r
+                } else {
+                    continue;
                 }
-                if !name.starts_with("mp4sim") {
-                    return name;
+            } else {
+                continue;
+            };
+            // function name: between " in " (or after the frame number) and " ("
+            let head = &line[..at];
+            let name_part = match head.find(" in ") {
+                Some(p) => &head[p + 4..],
+                None => head.splitn(2, "  ").nth(1).unwrap_or(head),
+            };
+            let name_part = name_part.split(" (").next().unwrap_or(name_part);
+            let mut name = name_part.trim().to_string();
+            if let Some(g) = name.find('<') {
+                if g > 0 {
+                    name.truncate(g);
                 }
             }
+            let short = name.rsplit("::").next().unwrap_or(&name).to_string();
+            return format!("{rel}::{short}");
         }
     }
     "?".into()
@@ -457,7 +493,7 @@ fn spawn_worker(prop: &str, profile: &'static str, tier: Tier, seed: u64, shard:
 
 pub fn run_all<P: Prop>(tier: Tier, seed: u64, workers: usize) -> RunOutcome {
     let start = Instant::now();
-    let n = P::count(tier);
+    let n = case_count::<P>(tier);
     let profiles: Vec<&'static str> = if P::BOTH_PROFILES { vec!["checked", "wrapping"] } else { vec!["checked"] };
     let per_profile = std::cmp::max(1, std::cmp::min(workers, P::MAX_WORKERS) / profiles.len());
     let of = per_profile as u64;
@@ -625,7 +661,7 @@ pub fn check_main<P: Prop>(tier: Tier, seed: u64, workers: usize, extra: Option<
     let known = load_known(&root);
     println!("VERIF_SEED={seed} property={} tier={} workers={workers}", P::ID, tier.name());
     let mut outc = run_all::<P>(tier, seed, workers);
-    let n = P::count(tier);
+    let n = case_count::<P>(tier);
     let profiles = if P::BOTH_PROFILES { 2 } else { 1 };
     let mut exit = 0;
     for e in &outc.harness_errors {
@@ -636,6 +672,18 @@ pub fn check_main<P: Prop>(tier: Tier, seed: u64, workers: usize, extra: Option<
     if exit == 0 && outc.stats.cases + outc.unexplored != expected && outc.found.iter().all(|f| f.in_process) {
         eprintln!("HARNESS-ERROR: executed {} cases, expected {expected}", outc.stats.cases);
         exit = 2;
+    }
+    if !P::STALL_IS_VIOLATION {
+        let before = outc.found.len();
+        for f in outc.found.iter().filter(|f| f.violation.invariant == "process_stall") {
+            println!("NOTE: case {} ({}) stalled: {}", f.idx, f.profile, f.violation.discriminator);
+        }
+        outc.found.retain(|f| f.violation.invariant != "process_stall");
+        let dropped = before - outc.found.len();
+        if dropped > 0 {
+            println!("NOTE: {dropped} case(s) stalled and were skipped; stalls are judged by the C07 check, not by {}", P::ID);
+            outc.stats.add("cases_skipped_after_stall", dropped as u64);
+        }
     }
     // group by signature
     let mut by_sig: BTreeMap<String, Vec<usize>> = BTreeMap::new();
@@ -703,7 +751,9 @@ pub fn check_main<P: Prop>(tier: Tier, seed: u64, workers: usize, extra: Option<
             match run_one_child(P::ID, f.profile, &use_path, P::STALL_SECS.max(30)) {
                 Ok(vs) => {
                     let same = vs.iter().any(|v| {
-                        v.signature() == *sig || (process_level && v.invariant == f.violation.invariant)
+                        v.signature() == *sig
+                            || (process_level && v.invariant == f.violation.invariant)
+                            || (f.violation.invariant == "process_stall" && v.invariant == "cpu_stall")
                     });
                     if !same {
                         ok = false;
@@ -849,7 +899,11 @@ pub fn replay_main(path: &Path) -> i32 {
     match run_one_child(&rf.property, &rf.profile, path, 120) {
         Ok(vs) => {
             let process_level = rf.violation.invariant.starts_with("process_");
-            let hit = vs.iter().find(|v| v.signature() == rf.signature || (process_level && v.invariant == rf.violation.invariant));
+            let hit = vs.iter().find(|v| {
+                v.signature() == rf.signature
+                    || (process_level && v.invariant == rf.violation.invariant)
+                    || (rf.violation.invariant == "process_stall" && v.invariant == "cpu_stall")
+            });
             for v in &vs {
                 println!("  observed: {} :: {}", v.signature(), v.detail);
             }
